@@ -19,6 +19,7 @@ Case grammar (one line):   <N>[n]|<step>;<step>;...
          | xmv:<relpattern>:<b>              MoveIndexEntries()   | xrm:<relpattern>                           RemoveDataNodes()
          | xsr:<owner>/<relpath>:<reldst>:<0|1>   SaveNodeTreeToMessage() of that node + RestoreNodeTreeFromMessage() at <reldst>
          | xra:<relpath>:<pos>               DataNode::RemoveIndexEntryAt() on an own node
+         | xia:<relpath>:<pos>:<key>         DataNode::InsertIndexEntryAt() on an own node, when its documented preconditions hold
          | dt                                the client closes its connection (alone in its step)
          | at                                a new session is attached (alone in its step; the <sid> is ignored)
   <b>   := '-' (empty string: end of index) | '!' (PR_NAME_REMOVE_FROM_INDEX) | a node name
@@ -90,8 +91,10 @@ def gen_api_cmd(rng, n, sid):
         return "xcl:%d/%s:%s:%d:%s" % (owner, src, dst, rng.randint(0, 1) if "/" in dst else rng.choice([0, 0, 1]), rng.choice(BEFORE))
     if r < 0.82:
         return "xmv:%s:%s" % (rng.choice(["a/" + rng.choice(KIDS), "a/*", "c/*", "*/x"]), rng.choice(BEFORE))
-    if r < 0.88:
+    if r < 0.86:
         return "xra:%s:%d" % (rng.choice(["a", "a", "c", "b", "a/x"]), rng.choice([0, 0, 1, 2, 5]))
+    if r < 0.90:
+        return "xia:%s:%d:%s" % (rng.choice(["a", "a", "c", "b", "a/x"]), rng.choice([0, 0, 1, 2, 3, 9]), rng.choice(KIDS))
     if r < 0.96:
         return "xrm:%s" % rng.choice(["a/" + rng.choice(KIDS), "c", "a/*", "d"])
     return "xrm:%s" % rng.choice(["a", "*"])
@@ -170,6 +173,7 @@ DIRECTED = [
     "2|1>su:*/*;0>sd:a:0;0>io:a:-,-,-;0>ro:a/I1:I0;0>sd:a/z:0;0>io:a/I0:-,-;0>xsr:0/a:c:0;0>xsr:0/a:a:0;0>xsr:0/a:c:1;1>xsr:0/a:c:0;1>io:c:I0;1>xsr:0/a:c:0;0>xsr:1/c:a:0",
     # raw RemoveIndexEntryAt through the node API
     "2|1>su:*/a;0>sd:a:0;0>io:a:-,-,-;0>xra:a:1;0>xra:a:5;0>xra:a:0;0>xra:a:0;0>xra:a:0;0>xra:b:0",
+    "2|1>su:*/a;0>sd:a/x:0;0>sd:a/y:0;0>sd:a/z:0;0>xia:a:0:x;0>xia:a:0:y;0>xia:a:5:z;0>xia:a:1:x;0>xia:a:2:z;0>xia:a:0:q;0>su:0/a;0>xia:b:0:x",
     # max update items 1 splits Messages but not per-node order
     "2|1>mx:1;1>su:*/*;1>su:*/*/*;0>sd:a:0;0>io:a:-,-,-;0>io:a/I0:-,-;0>rm:a",
 ]
@@ -186,7 +190,7 @@ class CHECK(vlib.Check):
                 "DoRemoveData, DoGetData/GetDataCallback (clear+inserts snapshot, own-subtree short cut on _indexingPresent), SUBSCRIBE / "
                 "REMOVEPARAMETERS, NodeIndexChanged + PushSubscriptionMessages after every (sub-)Message, PR_COMMAND_BATCH, CloneDataNodeSubtree. "
                 "Single wildcard pattern per command (clauses: name or *). Not modelled: query filters, quiet flags, payloads, DATAITEMS, "
-                "Message boundaries of the update stream (only per-client per-node order), node/child count limits, DataNode::InsertIndexEntryAt called directly.")
+                "Message boundaries of the update stream (only per-client per-node order), node/child count limits, DataNode::InsertIndexEntryAt called against its documented preconditions.")
     premises = ["subscriber tables equal pattern matching (C04 refcount_inv; compared in the correspondence run through DataNode::GetSubscribers())",
                 "a single-pattern traversal visits exactly the matching nodes depth-first in child-table order (C05)",
                 "no SETDATANODE_FLAG_QUIET / PR_NAME_REMOVE_QUIETLY / PR_NAME_SUBSCRIBE_QUIETLY without a following GETDATA (they suppress notifications by design)",
